@@ -10,7 +10,7 @@ from .. import gen
 from .. import findings as F
 from .numbering import finish
 
-TIME_LIMIT = 10
+TIME_LIMIT = 60     # generous: the claim is termination, not speed; the debug build is quadratic in the number of structs
 STACK = 8 * 1024 * 1024
 MEM = 4 * 1024 * 1024 * 1024
 
@@ -75,7 +75,7 @@ def special_inputs(rng):
     out.append(("invalid-utf8", b"struct S { uint8 a; };\n\xff\xfe\xfd interface I {};\n"))
     out.append(("nul", b"struct S { uint8 a; };\x00\n"))
     out.append(("long-ident", b"struct " + b"A" * 200000 + b" { uint8 a; };\ninterface I { method m(in " + b"A" * 200000 + b" x); };\n"))
-    out.append(("many-structs", b"".join(b"struct S%d { uint32 a; uint32 b; };\n" % i for i in range(4000))))
+    out.append(("many-structs", b"".join(b"struct S%d { uint32 a; uint32 b; };\n" % i for i in range(2000))))
     out.append(("many-methods", b"interface I {\n" + b"".join(b"  method m%d(in uint32 a, out uint64 b);\n" % i for i in range(3000)) + b"};\n"))
     for n in (b"0", b"1", b"65535", b"65536", b"4294967296", b"99999999999999999999"):
         out.append((f"field-array-{n.decode()}", b"struct S { uint8[" + n + b"] a; };\ninterface I { method m(in S s); };\n"))
@@ -89,6 +89,15 @@ def special_inputs(rng):
                                  b"struct E { D[65535] a; };\ninterface I { method m(in E e); };\n"))
     out.append(("self-cycle", b"struct S { S a; };\n"))
     out.append(("deep-parens", b"interface I { method m(" + b"in uint8 a, " * 5000 + b"in uint8 z); };\n"))
+    # counters of the code generators around the u8 boundary, distinct names (each slot class and
+    # the members of a bundle are counted separately)
+    for n in (15, 16, 255, 256, 257, 300, 513):
+        for lab, decl, par in (("bundled-in", b"", b"in uint8 a%d"), ("bundled-out", b"", b"out uint16 a%d"),
+                               ("small-struct-in", b"struct P { uint32 x; uint32 y; };\n", b"in P a%d"),
+                               ("small-struct-out", b"struct P { uint32 x; uint32 y; };\n", b"out P a%d"),
+                               ("buffers-in", b"", b"in buffer a%d"), ("objects-out", b"", b"out interface a%d"),
+                               ("big-struct-in", b"struct Q { uint64 x; uint64 y; uint64 z; };\n", b"in Q a%d")):
+            out.append((f"many-{lab}-{n}", decl + b"interface I { method m(" + b", ".join(par % i for i in range(n)) + b"); };\n"))
     out.append(("huge-const", b"const uint64 K = " + b"9" * 5000 + b";\n"))
     out.append(("huge-float", b"const float64 K = " + b"9" * 5000 + b".5;\n"))
     out.append(("doc-only", b"/**\n * doc\n */\n"))
